@@ -77,9 +77,13 @@ def make_types(rng):
     poly = ["poly", [fnum(Fraction(1, 2)), "0"], [fnum(Fraction(3, 2)), "1"]]
     add(PT("CALP_T", ["pt", S("CALP_T"), "plain", ["int", "8", S("unsigned"), S(MSB), [poly, []]]], 8,
            lambda rng, c=None: rbits(rng, 8)))
+    def knotty(rng, c=None):
+        # raw values on spline knots (incl. the last one) as often as between them
+        return f"{rng.choice([0, 64, 128, 255]):08b}" if rng.random() < 0.5 else rbits(rng, 8)
     spl = ["spline", "1", "1", [fnum(0), fnum(0)], [fnum(64), fnum(16)], [fnum(128), fnum(-8)], [fnum(256), fnum(8)]]
-    add(PT("CALS_T", ["pt", S("CALS_T"), "plain", ["int", "8", S("unsigned"), S(MSB), [spl, []]]], 8,
-           lambda rng, c=None: rbits(rng, 8)))
+    add(PT("CALS_T", ["pt", S("CALS_T"), "plain", ["int", "8", S("unsigned"), S(MSB), [spl, []]]], 8, knotty))
+    spl0 = ["spline", "0", "0", [fnum(0), fnum(-40)], [fnum(64), fnum(-10)], [fnum(128), fnum(25)], [fnum(255), fnum(85)]]
+    add(PT("CALS0_T", ["pt", S("CALS0_T"), "plain", ["int", "8", S("unsigned"), S(MSB), [spl0, []]]], 8, knotty))
     # strings and binaries with fixed sizes
     def ascii_bits(rng, nbytes):
         return "".join(f"{rng.choice(b'ABCDEFGHXYZ019 '):08b}" for _ in range(nbytes))
